@@ -20,6 +20,7 @@ from . import c08_ns as NS
 from . import c08_upd as U
 from . import c08_ini as INI
 from . import c08_cov as COV
+from . import c08_pkg as PKG
 
 PROPERTY = 'C08'
 LEAN_TARGETS = ['CpProofs.C08', 'CpProofs.C08Hist', 'CpProofs.C08Ns', 'CpProofs.C08Upd', 'CpProofs.C08Eval', 'CpProofs.C08Ini', 'drv_c08']
@@ -941,7 +942,7 @@ def check_fc_cases(ctx, cases, compare_model=True):
 # ----------------------------------------------------------------------------------------------
 # unrepr / INI literals
 # ----------------------------------------------------------------------------------------------
-DOTTED = ['os.path', 'os.path.join', 'int', 'str.upper', 'cherrypy.lib.static', 'string.punctuation', 'os',
+DOTTED = ['unittest.main', 'os.path', 'os.path.join', 'int', 'str.upper', 'cherrypy.lib.static', 'string.punctuation', 'os',
           'nosuchmodule_xyz', 'os.nosuch_attr', 'cherrypy.nosuch', 'Ellipsis', 'string']
 HAND_TEXTS = ['1-2j', '(1-2j)', '-(1+2j)', '{1, 2}', 'set()', '+1', '~1', '1*2', '2*3.5', 'not True', '[1, {2: (3,)}]',
               '1 if True else 2', 'lambda: 1', '(1,)[0]', "'a' 'b'", '[1] + [2]', "{'a': {1, 2}}", '1/2', '1+2', '1.5-0.5',
@@ -1163,16 +1164,20 @@ def resolve_dotted(text):
 
 
 def classify_exc(e):
-    msg = str(e.args[0]) if e.args else ''
-    if isinstance(e, TypeError) and msg.startswith('unrepr does not recognize'):
-        return 'unrecognised:' + msg.split("'")[1]
-    if isinstance(e, TypeError) and msg.startswith('unrepr could not resolve'):
-        return 'unresolvedName'
+    """The class of an exception, by its TYPE only (never by the wording of its message)."""
     if isinstance(e, AttributeError):
         return 'attributeError'
     if isinstance(e, TypeError):
         return 'typeError'
     return 'other:' + type(e).__name__
+
+
+def coarse_model_err(kind):
+    """The model's error kinds on the same scale: `unrecognised:<Class>` (no build_<Class> method) and
+    `unresolvedName` are TypeErrors of the builder."""
+    if kind.startswith('unrecognised:') or kind in ('unresolvedName', 'typeError'):
+        return 'typeError'
+    return kind
 
 
 def _mutate_all(v, seen=None):
@@ -1564,7 +1569,11 @@ def _check_literal_cases(ctx, cases, compare_model, reprconf, lines, meta):
             except Exception as e:
                 raise common.HarnessError('model value %s of %r does not denote a Python object: %r' % (mline, case['lit']['text'], e))
         else:
-            mv = ('err', mline[4:])
+            mv = ('err', coarse_model_err(mline[4:]))
+            if mline[4:].startswith('unrecognised:') and hasattr(reprconf._Builder, 'build_' + mline[4:].split(':', 1)[1]):
+                # (structural cross-check instead of reading the message: the class the model says is missing)
+                ctx.disagree(case, 'the builder has build_' + mline[4:].split(':', 1)[1], mline, 'model table differs from the live builder')
+                continue
         if got[0] != mv[0]:
             ctx.disagree(case, repr(got), mline, 'unrepr outcome differs (accepted / raised)')
         elif got[0] == 'ok':
@@ -1715,6 +1724,9 @@ def check_any(ctx, cases, compare_model=True):
     upd = [c for c in cases if 'upd' in c]
     if upd:
         U.check_upd_cases(ctx, upd, compare_model)
+    pkg = [c for c in cases if 'pkg' in c]
+    if pkg:
+        PKG.check_pkg_cases(ctx, pkg)
     ini = [c for c in cases if 'ini' in c and 'tree' not in c]
     if ini:
         INI.check_ini_cases(ctx, ini, compare_model)
@@ -1753,6 +1765,7 @@ def _worker(args):
     NS.check_eff_cases(sub, [NS.gen_eff_case(sub.rng) for _ in range(n)])
     U.check_upd_cases(sub, [U.gen_upd_case(sub.rng) for _ in range(n // 2)])
     INI.check_ini_cases(sub, [INI.gen_ini_case(sub.rng) for _ in range(n)])
+    PKG.check_pkg_cases(sub, [PKG.gen_pkg_case(sub.rng) for _ in range(n // 20)])
     check_fc_cases(sub, [gen_fc_case(sub.rng) for _ in range(n * 4)])
     check_literal_cases(sub, gen_literal_cases(sub.rng, n * 3))
     return _export(sub)
@@ -1854,6 +1867,7 @@ def _run(ctx, cov):
         NS.check_eff_cases(ctx, [NS.gen_eff_case(ctx.rng) for _ in range(1200)])
         U.check_upd_cases(ctx, [U.gen_upd_case(ctx.rng) for _ in range(600)])
         INI.check_ini_cases(ctx, [INI.gen_ini_case(ctx.rng) for _ in range(1200)])
+        PKG.check_pkg_cases(ctx, [PKG.gen_pkg_case(ctx.rng) for _ in range(60)])
         check_fc_cases(ctx, [gen_fc_case(ctx.rng) for _ in range(3000)])
         check_literal_cases(ctx, gen_literal_cases(ctx.rng, 2500))
         return
@@ -1887,6 +1901,7 @@ def search(ctx, around=None):
     NS.check_eff_cases(ctx, [NS.gen_eff_case(ctx.rng) for _ in range(2000)], compare_model=False)
     U.check_upd_cases(ctx, [U.gen_upd_case(ctx.rng) for _ in range(1500)], compare_model=False)
     INI.check_ini_cases(ctx, [INI.gen_ini_case(ctx.rng) for _ in range(2000)], compare_model=False)
+    PKG.check_pkg_cases(ctx, [PKG.gen_pkg_case(ctx.rng) for _ in range(150)])
     check_fc_cases(ctx, [gen_fc_case(ctx.rng) for _ in range(5000)], compare_model=False)
     check_literal_cases(ctx, gen_literal_cases(ctx.rng, 5000), compare_model=False)
 
